@@ -55,6 +55,21 @@ def build(rng, tier):
             for entry in ('proc', 'preq'):
                 cases.append(K.mk(tree, '?', '?', entry=entry, raw=raw, kind='corpus'))
         p0n = rng.choice(paths)
+        # every spelling of a media type and its parameters that HTTP allows or a client may send (names are case-insensitive,
+        # optional white space, quoted values, other parameters before the one looked for, control characters): a handler that
+        # matches one spelling and extracts with another must still answer
+        mp_body = b'--abc\r\nContent-Disposition: form-data; name="a"\r\n\r\nv\r\n--abc--\r\n'
+        for ctv in ['multipart/form-data; boundary=abc', 'multipart/form-data; Boundary=abc', 'multipart/form-data; BOUNDARY=abc', 'Multipart/Form-Data; boundary=abc',
+                    'MULTIPART/FORM-DATA; BOUNDARY=abc', 'multipart/form-data;boundary=abc', 'multipart/form-data ; boundary = abc', 'multipart/form-data; boundary="abc"',
+                    'multipart/form-data; charset=utf-8; boundary=abc', 'multipart/form-data; boundary=abc; charset=utf-8', 'multipart/form-data; bound\x07ary=abc',
+                    'multipart/form-data; boundary', 'multipart/form-data;', 'multipart/form-data', 'multipart/form-data; boundary=', 'multipart/form-data; xboundary=abc',
+                    'multipart/form-data; boundary=abc, text/plain', 'multipart/mixed; boundary=abc', 'multipart/form-datax; boundary=abc', ' multipart/form-data; boundary=abc',
+                    'application/x-www-form-urlencoded', 'Application/X-WWW-Form-Urlencoded', 'application/x-www-form-urlencoded; charset=UTF-8', 'application/x-www-form-urlencoded;',
+                    'application/x-www-form-urlencodedx', 'text/plain', '', '*/*']:
+            for hn in ('Content-Type', 'content-type', 'CONTENT-TYPE'):
+                if hn != 'Content-Type' and not ctv.lower().startswith(('multipart/form-data; b', 'application/x-www-form-urlencoded')): continue
+                for tgt, body in (('/form-multipart-enctype-post-method', mp_body), ('/form-url-encoded-enctype-post-method', b'a=1&b=2')):
+                    cases.append(K.mk(tree, 'POST', tgt, [(hn, ctv)], body, entry=rng.choice(['proc', 'preq']), kind='media-type-spelling'))
         # client-supplied numbers at and around every machine-integer limit, in every place a handler or parser reads a number:
         # query parameters of the built-in endpoints, Content-Length, Range bounds (arithmetic on them must not overflow)
         LIMITS = [0, 1, 255, 256, 32767, 32768, 65535, 65536, 2**31 - 1, 2**31, 2**32 - 1, 2**32, 2**63 - 1, 2**63, 2**64 - 1, 2**64, 2**127 - 1, 2**127, 2**128 - 1, 2**128]
